@@ -13,14 +13,14 @@ PROPS = {
                 scenarios=["s01", "s02", "s03", "s04", "s07", "s08", "s09", "s11", "s13", "s14", "s16"], acc_check=True),
     "C03": dict(props="Props/C03.v", runner="conc",
                 families=["mixed", "guards", "nofast", "helping", "cas", "multi"],
-                scenarios=["s01", "s03", "s04", "s05", "s06", "s08", "s09"]),
+                scenarios=["s01", "s03", "s04", "s05", "s06", "s08", "s09", "s20"]),
     "C04": dict(props="Props/C04.v", runner="conc",
                 families=["basic", "mixed", "cas", "helping", "multi"],
-                scenarios=["s05", "s07", "s08", "s09", "s13", "s14"]),
+                scenarios=["s05", "s07", "s08", "s09", "s13", "s14", "s19"], deep=["s19"]),
     "C05": dict(props="Props/C05.v", runner="conc",
-                families=["cas", "mixed", "multi"], scenarios=["s08", "s09"]),
+                families=["cas", "mixed", "multi"], scenarios=["s08", "s09", "s19"], deep=["s19"]),
     "C06": dict(props="Props/C06.v", runner="conc",
-                families=["cas", "helping"], scenarios=["s08", "s09"]),
+                families=["cas", "helping"], scenarios=["s08", "s09", "s19"], deep=["s19"]),
     "C07": dict(props="Props/C07.v", runner="conc",
                 families=["mixed", "nofast", "guards"], scenarios=["s01", "s03", "s07"]),
     "C08": dict(props="Props/C08.v", runner="conc",
